@@ -372,12 +372,21 @@ func (p *parent) hang(k int, lc loggedCase, res kit.ChildResult) {
 		site = m[1]
 	}
 	sig := "hang/" + sigPhase(lc.Phase) + "/" + site
+	// one confirmation per site: the site is claimed before the re-run so that the other
+	// workers do not pay for the same 20x budget meanwhile (released if not confirmed)
 	p.mu.Lock()
 	known := p.hangs[sig]
+	p.hangs[sig] = true
 	p.mu.Unlock()
 	if known {
-		rec.Count("cases_that_hang_again_at_a_confirmed_site", 1)
+		rec.Count("cases_that_stall_again_at_a_site_being_or_already_confirmed", 1)
 		return
+	}
+	claimed := sig
+	release := func() {
+		p.mu.Lock()
+		delete(p.hangs, claimed)
+		p.mu.Unlock()
 	}
 	budget := 20 * p.caseBudgetMS()
 	env, side, cleanup := p.env(k, lc.I, lc.I+1, budget)
@@ -397,12 +406,14 @@ func (p *parent) hang(k int, lc loggedCase, res kit.ChildResult) {
 		rec.Violation(sig, fmt.Sprintf("phase %s%s does not finish within %d s of CPU time (alone in a fresh process; a healthy shard of this size takes milliseconds) on shard %s with corruption %s", lc.Phase, opText(lc.Op), budget/1000, p.w.Subjects[k].File, lc.ID),
 			p.witness(k, lc.I, map[string]any{"phase": lc.Phase, "op": lc.Op, "budget_ms": budget, "goroutines_at_give_up": clip(r2.Tail, 6000)}))
 	case r2.Exit == exitRunaway:
+		release()
 		var l2 loggedCase
 		if json.Unmarshal([]byte(r2.LastCase), &l2) != nil {
 			l2 = lc
 		}
 		p.runaway(k, l2, r2)
 	case r2.Crashed():
+		release()
 		var l2 loggedCase
 		_ = json.Unmarshal([]byte(r2.LastCase), &l2)
 		sig := sigPhase(l2.Phase) + "/" + crashSig(r2)
@@ -410,6 +421,7 @@ func (p *parent) hang(k int, lc loggedCase, res kit.ChildResult) {
 		rec.Violation(sig, fmt.Sprintf("the serving process died (%s) in phase %s%s on shard %s with corruption %s (the case first exceeded its time budget in a batch)", r2.CrashClass(), l2.Phase, opText(l2.Op), p.w.Subjects[k].File, lc.ID),
 			p.witness(k, lc.I, map[string]any{"phase": l2.Phase, "op": l2.Op, "exit": r2.Exit, "child_output": clip(r2.Tail, 6000)}))
 	default:
+		release()
 		rec.Count("budget_exceeded_but_finished_alone_inconclusive", 1)
 	}
 }
